@@ -439,11 +439,11 @@ def gen_policy(rng, k, allow_bad=False):
 
 
 def gen_config(rng, with_fleet=False):
-    n_src = rng.choice([1, 1, 2])
+    n_src = rng.choice([1, 1, 2, 2, 3])
     layers = [[("source", None) for _ in range(n_src)]]
     for _ in range(rng.choice([0, 1, 1, 2])):
-        layers.append([("machine", None) for _ in range(rng.choice([1, 1, 2]))])
-    layers.append([("sink", None) for _ in range(rng.choice([1, 1, 2]))])
+        layers.append([("machine", None) for _ in range(rng.choice([1, 1, 2, 3]))])
+    layers.append([("sink", None) for _ in range(rng.choice([1, 1, 1, 2]))])
     nodes, idx = [], []
     for L in layers:
         row = []
@@ -462,6 +462,8 @@ def gen_config(rng, with_fleet=False):
         if rng.random() < 0.4:
             conn.add((rng.choice(a), rng.choice(b)))
         pairs += sorted(conn)
+        if rng.random() < 0.2:
+            pairs.append(rng.choice(sorted(conn)))      # a second, parallel edge between two nodes (fan-in / fan-out of 3 and more)
     edges = []
     for (s, d) in pairs:
         if with_fleet and rng.random() < 0.35:
